@@ -23,6 +23,7 @@ import (
 	"verif/internal/peer"
 	"verif/internal/ref9p"
 	"verif/internal/sched"
+	"verif/internal/xport"
 )
 
 var entryFails = []string{"eof", "err", "unmount", "badtype", "size3", "oversize-hdr", "unknowntag"}
@@ -54,7 +55,8 @@ func spin(n uint64) uint64 {
 
 var spinSink atomic.Uint64
 
-var entryDeadline = deadline
+// entryMaxIn: the largest number of calls inside Rpc at the injection of a failure, over the shard.
+var entryMaxIn int64
 
 // runEntry runs c.Rounds rounds; in each, c.Callers goroutines start calling
 // on a fresh connection at a starting gun and the connection is failed a
@@ -76,7 +78,8 @@ func runEntry(c *Case) error {
 	}
 	maxIn := int64(0)
 	defer func() {
-		hx.Extra("max_entry_inflight", maxIn)
+		entryMaxIn = max(entryMaxIn, maxIn)
+		hx.Extra("max_entry_inflight", entryMaxIn)
 		hx.ExtraAdd("entry_rounds", int64(c.Rounds))
 		switch {
 		case maxIn == 0:
@@ -96,8 +99,8 @@ func runEntry(c *Case) error {
 			maxIn = in
 		}
 		if err != nil {
-			if h, ok := err.(hangErr); ok {
-				return hangErr(fmt.Sprintf("round %d: %s", r, string(h)))
+			if h, ok := err.(*hangErr); ok {
+				return &hangErr{fmt.Sprintf("round %d: %s", r, h.msg), h.blocked}
 			}
 			return fmt.Errorf("round %d: %v", r, err)
 		}
@@ -106,34 +109,42 @@ func runEntry(c *Case) error {
 }
 
 func entryRound(c *Case, round int) (inAtFailure int64, err error) {
-	p := peer.New("c10entry", c.Msize, true)
-	p.Start(false)
-	clnt, err := go9p.Connect(p.Lib, c.Msize, c.Dotu)
+	// a lean peer (the scripted one allocates a 2^17-slot queue per connection):
+	// strict decoding of every request, Rversion by itself, then the matching
+	// answer to everything until the failure is injected (mode "answer") or
+	// to nothing at all (mode "silent")
+	end, lib := xport.Pair("c10entry")
+	var quiet atomic.Bool
+	var undecodable atomic.Value
+	go func() {
+		dotu := false
+		for f := range end.Frames() {
+			m, _, err := ref9p.Decode(f, dotu)
+			if err != nil {
+				undecodable.Store(fmt.Errorf("client sent a frame that does not decode: %v", err))
+				continue
+			}
+			if m.Type == ref9p.Tversion {
+				ms, ver := min(m.Msize, c.Msize), "9P2000"
+				if m.Version == "9P2000.u" {
+					ver, dotu = "9P2000.u", true
+				}
+				_, _ = end.Write(ref9p.Encode(&ref9p.Msg{Type: ref9p.Rversion, Tag: m.Tag, Msize: ms, Version: ver}, false))
+				continue
+			}
+			if c.Mode != "answer" || quiet.Load() {
+				continue
+			}
+			_, _ = end.Write(ref9p.Encode(peer.Answer(m), dotu))
+		}
+	}()
+	clnt, err := go9p.Connect(lib, c.Msize, c.Dotu)
 	if err != nil {
+		_ = lib.Close()
 		return 0, fmt.Errorf("Connect: %v", err)
 	}
 	defer clnt.Unmount()
 	x := hx.Mix(c.Perturb, uint64(round), 77)
-	stopPeer := make(chan struct{})
-	if c.Mode == "answer" {
-		go func() { // the peer answers everything until the failure
-			for {
-				select {
-				case <-stopPeer:
-					return
-				default:
-				}
-				r, ok := p.Next(time.Millisecond)
-				if !ok {
-					return
-				}
-				if r == nil || r.Err != nil {
-					continue
-				}
-				_ = p.Write(p.Encode(peer.Answer(r.Msg)), nil)
-			}
-		}()
-	}
 	gate := make(chan struct{})
 	var wg sync.WaitGroup
 	var bad atomic.Value
@@ -177,50 +188,50 @@ func entryRound(c *Case, round int) (inAtFailure int64, err error) {
 		<-gate
 		spinSink.Add(spin(delay))
 		inAtFailure = atomic.LoadInt64(&inflight)
+		quiet.Store(true)
 		switch c.Fail {
 		case "eof":
-			p.End.CloseWrite()
+			end.CloseWrite()
 		case "err":
-			p.End.FailPeer(errors.New("injected transport error"))
+			end.FailPeer(errors.New("injected transport error"))
 		case "unmount":
 			clnt.Unmount()
 		case "badtype":
-			_ = p.Write([]byte{7, 0, 0, 0, 99, 1, 0}, nil)
+			_, _ = end.Write([]byte{7, 0, 0, 0, 99, 1, 0})
 		case "size3":
-			_ = p.Write([]byte{3, 0, 0, 0, ref9p.Rclunk, 1, 0, 0, 0, 0, 0}, nil)
+			_, _ = end.Write([]byte{3, 0, 0, 0, ref9p.Rclunk, 1, 0, 0, 0, 0, 0})
 		case "oversize-hdr":
 			b := []byte{0, 0, 0, 0, ref9p.Rread, 1, 0}
 			b[0], b[1], b[2] = byte(8*c.Msize+1), byte((8*c.Msize+1)>>8), byte((8*c.Msize+1)>>16)
-			_ = p.Write(b, nil)
+			_, _ = end.Write(b)
 		case "unknowntag":
-			_ = p.Write(p.Encode(&ref9p.Msg{Type: ref9p.Rclunk, Tag: 0x7777}), nil)
+			_, _ = end.Write(ref9p.Encode(&ref9p.Msg{Type: ref9p.Rclunk, Tag: 0x7777}, c.Dotu))
 		}
 		close(failed)
 	}()
 	close(gate)
 	<-failed
-	close(stopPeer)
 	done := make(chan struct{})
 	go func() { wg.Wait(); close(done) }()
-	select {
-	case <-done:
-	case <-time.After(entryDeadline):
-		return inAtFailure, hangErr(fmt.Sprintf("%d callers were entering Rpc when the connection failed (%s; %d calls in Rpc at that moment, %d calls returned so far): not all of them returned within %v", c.Callers, c.Fail, inAtFailure, atomic.LoadInt64(&calls), entryDeadline))
+	if _, ok := await(done); !ok {
+		return inAtFailure, hang("%d callers were entering Rpc when the connection failed (%s; %d calls in Rpc at that moment, %d calls returned so far): not all of them returned within %v", c.Callers, c.Fail, inAtFailure, atomic.LoadInt64(&calls), deadline)
 	}
 	hx.ExtraAdd("entry_calls", atomic.LoadInt64(&calls))
 	if e, _ := bad.Load().(error); e != nil {
 		return inAtFailure, e
 	}
+	if e, _ := undecodable.Load().(error); e != nil {
+		return inAtFailure, e
+	}
 	// one more call, after everything has settled
 	ch := make(chan *result, 1)
 	go func() { ch <- doCall(clnt, "stat", clnt.FidAlloc(), 0) }()
-	select {
-	case r := <-ch:
-		if r.err == nil {
-			return inAtFailure, fmt.Errorf("a call made after the failure (%s) returned success", c.Fail)
-		}
-	case <-time.After(entryDeadline):
-		return inAtFailure, hangErr(fmt.Sprintf("a call made after the failure (%s) and after all concurrent callers had returned did not return within %v", c.Fail, entryDeadline))
+	r, ok := await(ch)
+	if !ok {
+		return inAtFailure, hang("a call made after the failure (%s) and after all concurrent callers had returned did not return within %v", c.Fail, deadline)
+	}
+	if r.err == nil {
+		return inAtFailure, fmt.Errorf("a call made after the failure (%s) returned success", c.Fail)
 	}
 	return inAtFailure, nil
 }
@@ -238,19 +249,20 @@ func TestPropEntryStorm(t *testing.T) {
 }
 
 func entryDraw(t *testing.T, failedp *error) {
-	hx.Check(t, "entrystorm", hx.N(24, 110), func(t *rapid.T) {
+	hx.Check(t, "entrystorm", hx.N(30, 250), func(t *rapid.T) {
 		c := &Case{Calls: []string{"entry"},
-			Dotu:    rapid.Bool().Draw(t, "dotu"),
-			Msize:   rapid.SampledFrom([]uint32{256, 512, 8192}).Draw(t, "msize"),
-			Fail:    rapid.SampledFrom(entryFails).Draw(t, "fail"),
-			Callers: rapid.IntRange(16, 64).Draw(t, "callers"),
-			Rounds:  hx.N(25, 40),
+			Dotu:  rapid.Bool().Draw(t, "dotu"),
+			Msize: rapid.SampledFrom([]uint32{256, 512, 8192}).Draw(t, "msize"),
+			Fail:  rapid.SampledFrom(entryFails).Draw(t, "fail"),
+			// 16..64, the larger crowds more often
+			Callers: max(rapid.IntRange(16, 64).Draw(t, "callers"), rapid.IntRange(16, 64).Draw(t, "callers2")),
+			Rounds:  hx.N(50, 40),
 			Mode:    rapid.SampledFrom([]string{"answer", "answer", "answer", "silent"}).Draw(t, "mode"),
 			Perturb: rapid.Uint64().Draw(t, "perturb"),
-			Hook:    rapid.Bool().Draw(t, "hook"),
-			Procs:   rapid.SampledFrom([]int{0, 0, 2, 4, 8, 32}).Draw(t, "procs"),
-			Cut:     rapid.SampledFrom([]int{0, 2000, 20000, 200000, 200000, 1000000}).Draw(t, "cut"),
-			Spread:  rapid.SampledFrom([]int{0, 0, 2000, 50000}).Draw(t, "spread"),
+			Hook:    rapid.SampledFrom([]bool{false, false, true}).Draw(t, "hook"),
+			Procs:   rapid.SampledFrom([]int{0, 0, 0, 0, 4, 8}).Draw(t, "procs"),
+			Cut:     rapid.SampledFrom([]int{0, 20000, 200000, 1000000}).Draw(t, "cut"),
+			Spread:  rapid.SampledFrom([]int{0, 0, 0, 2000}).Draw(t, "spread"),
 			After:   rapid.IntRange(1, 3).Draw(t, "after"),
 		}
 		if *failedp != nil {
